@@ -26,6 +26,23 @@ def _slot_origin(case, idx, slot):
     return []
 
 
+def _lowering_override(case, idx):
+    """Did an earlier signer run take a forced manifest number at or below the signer's own number?"""
+    prev = {}
+    for t, _ in case["ops"][:idx]:
+        o = pc.obs_of(t)
+        w = vlib.strip_obs(t).split()
+        if len(w) > 2 and w[0] == "sign" and o.get("ret") == "ok":
+            for x in w:
+                if x.startswith("ovr=") and x[4:].isdigit():
+                    before = prev.get(w[1])
+                    if before is not None and int(x[4:]) <= before:
+                        return True
+        for name, sg in (o.get("signers") or {}).items():
+            prev[name] = sg.get("num")
+    return False
+
+
 def signature(case, idx, verdict):
     op = vlib.strip_obs(case["ops"][idx][0]).split()
     if verdict.startswith("FAIL oracle"):
@@ -46,7 +63,7 @@ def signature(case, idx, verdict):
                     m2 = re.match(r"[A-Z]*(\d+)", origin[1])
                     origin = _slot_origin(case, idx, int(m2.group(1))) if m2 else []
                     hops += 1
-                if any(w.startswith("ovr=") for w in origin):
+                if any(w.startswith("ovr=") for w in origin) or _lowering_override(case, idx):
                     detail = "resp:override"
                 else:
                     # a signer update since the request was opened?
